@@ -44,6 +44,8 @@ def requests(ctx):
               [65534, 65535, 65536, 65537, 131069, 131070, 131071, 131072, 200000]):
         rq.append(storegen.gen_rollover(rng, n, every=rng.choice([1, 50])))
     rq.append(storegen.gen_rollover(rng, 70000, splits=(30000, 65535, 65536)))
+    for _ in range(6 if quick else 40):
+        rq.append(storegen.gen_gaps(rng))
     # malformed stream: outside the property's quantifier (spec `-`), model and code must still agree (panic or not)
     for _ in range(400 if quick else 4000):
         rq.append(malform(rng, storegen.gen_history(rng, nsteps=rng.choice([1, 2, 4]), split_p=0.2)))
